@@ -64,5 +64,25 @@ pub fn register(module: &mut RpcModule<MethodContext>, store: Arc<Mutex<SessionS
             "saves_done": SAVES_DONE.load(Ordering::SeqCst),
         }))
     })?;
+    // the live standard dictionary, per reading: written form and part of speech of every word, in the order the engine holds them;
+    // plus whether the trie in front of the map knows the reading
+    module.register_method("Verif.Words", move |params, ctx, _| {
+        let readings: Vec<String> = params.parse::<serde_json::Value>().ok()
+            .and_then(|v| v.get("readings").cloned())
+            .and_then(|v| serde_json::from_value(v).ok())
+            .unwrap_or_default();
+        let dict = ctx.dictionary.lock().unwrap();
+        let out: Vec<serde_json::Value> = readings
+            .iter()
+            .map(|r| {
+                let words: Vec<serde_json::Value> = dict.graph.standard_dic.get(r).map(|ws| {
+                    ws.iter().map(|w| serde_json::json!([w.word.iter().collect::<String>(), serde_json::to_value(&w.speech).unwrap()])).collect()
+                }).unwrap_or_default();
+                let in_trie = dict.graph.standard_trie.search(r, &|_, _| {}).is_some();
+                serde_json::json!({"reading": r, "words": words, "in_trie": in_trie})
+            })
+            .collect();
+        RpcResult::Ok(serde_json::json!(out))
+    })?;
     Ok(())
 }
